@@ -26,8 +26,8 @@ RULE = (
     "vacuous state and is counted separately; non-trivial = run with converged=True; distinct = (case key, seed)"
 )
 BOUNDS = {
-    "quick": "shapes n<=m<=5, n<=4 (column/hybrid/CGNE) and m<=n (row); cond {1,10,1000}; tol {1e-3,1e-6,1e-8}; block 1..min(m,n); column_solver {qr,spd}; hybrid p {2,3,4,8} T {1,3,5} r 1..n; CGNE prec rank {0,1..n}; seeds 0..3; max_iter 200",
-    "thorough": "seeds 0..15, cond {1,10,100,1000}, max_iter 1000",
+    "quick": "shapes n<=m<=4 with m-n<=2, n<=4 (column/hybrid/CGNE) and m<=n (row), plus large cells n in {9,10,12} > sketch size; cond {1,10,1000}; tol {1e-3,1e-6,1e-8}; block 1..min(m,n); column_solver {qr,spd}; hybrid p {2,3,4,8} T {1,3,5} r in {1,n}; CGNE prec rank 0..n; seeds 0..2; max_iter 150",
+    "thorough": "shapes m<=5, seeds 0..11, cond {1,10,100,1000}, max_iter 600",
 }
 WALL_BUDGET = {"quick": 900, "thorough": 3400}
 ASSUMPTIONS = [
@@ -36,8 +36,9 @@ ASSUMPTIONS = [
 ]
 
 
-def shapes_tall():
-    return [(m, n) for n in range(1, 5) for m in range(n, 6)]
+def shapes_tall(tier="thorough"):
+    mmax = 5 if tier == "quick" else 6
+    return [(m, n) for n in range(1, 5) for m in range(n, mmax) if tier != "quick" or m - n <= 2]
 
 
 def make_A(m, n, cond, fill):
@@ -51,7 +52,7 @@ def cases(tier, seed):
     conds = [1.0, 10.0, 1000.0] if tier == "quick" else [1.0, 10.0, 100.0, 1000.0]
     tols = [1e-3, 1e-6, 1e-8]
     out = []
-    for (m, n) in shapes_tall():
+    for (m, n) in shapes_tall(tier):
         for c in conds:
             if min(m, n) == 1 and c != 1.0:
                 continue
@@ -74,12 +75,14 @@ def cases(tier, seed):
     for (m, n) in ((10, 9), (12, 12), (14, 10)):
         for bs in (4, 8, 9):
             for cs in ("qr", "spd"):
+                if cs == "spd" and bs == 4 and tier == "quick":
+                    continue
                 out.append({"key": f"col-large/{m}x{n}/b={bs}/{cs}", "ep": "col", "m": m, "n": n, "cond": 10.0, "tol": 1e-6, "bs": bs, "cs": cs, "large": True})
             out.append({"key": f"row-large/{n}x{m}/b={bs}", "ep": "row", "m": n, "n": m, "cond": 10.0, "tol": 1e-6, "bs": bs, "cs": "qr", "large": True})
         out.append({"key": f"hyb-large/{m}x{n}", "ep": "hyb", "m": m, "n": n, "cond": 10.0, "tol": 1e-6, "p": 3, "T": 3, "r": 8, "cs": "qr", "large": True})
     for c in out:
-        c["S"] = 4 if tier == "quick" else 12
-        c["MAXIT"] = 200 if tier == "quick" else 600
+        c["S"] = 3 if tier == "quick" else 12
+        c["MAXIT"] = 150 if tier == "quick" else 600
     return out
 
 
